@@ -482,3 +482,53 @@ def borrow(run, fn, new_prefix):
         f.rule = new_prefix + '/' + f.rule
     for u in run.undecided[n_u:]:
         u['rule'] = new_prefix + '/' + u['rule']
+
+
+# ---------------------------------------------------------------- totality
+STR_METHOD_ARITY = {'join': (1, 1), 'strip': (0, 1), 'lstrip': (0, 1), 'rstrip': (0, 1), 'lower': (0, 0), 'upper': (0, 0),
+                    'startswith': (1, 3), 'endswith': (1, 3), 'split': (0, 2), 'rsplit': (0, 2), 'replace': (2, 3), 'encode': (0, 2),
+                    'decode': (0, 2), 'find': (1, 3), 'partition': (1, 1), 'rpartition': (1, 1)}
+
+
+def _caught(unit, node, names):
+    """is `node` lexically inside a try body whose handlers catch one of `names` (or everything)?"""
+    for t in walk_unit(unit):
+        if isinstance(t, ast.Try) and any(node is x for b in t.body for x in ast.walk(b)):
+            for h in t.handlers:
+                if h.type is None:
+                    return True
+                hs = [dotted(x) for x in (h.type.elts if isinstance(h.type, ast.Tuple) else [h.type])]
+                if any((x or '').split('.')[-1] in names for x in hs):
+                    return True
+    return False
+
+
+def partial_sites(unit):
+    """Operations in `unit` that raise on some runtime value and are not locally handled:
+    [(ast node, description)].  Recognised: a constant-key subscript load on a mapping that is not
+    behind a membership test or a KeyError handler; a str-constant method called with an impossible
+    number of arguments; destructuring a computed sequence of unknown length."""
+    out = []
+    g = cfg_of(unit)
+    for a in walk_unit(unit):
+        if isinstance(a, ast.Subscript) and isinstance(a.ctx, ast.Load) and isinstance(const(a.slice), str) and isinstance(a.value, ast.Name):
+            if _caught(unit, a, ('KeyError', 'LookupError', 'Exception', 'BaseException')):
+                continue
+            key, m = const(a.slice), a.value.id
+            guarded = False
+            for n in g.nodes_containing(a):
+                for t, lab in g.guarded_by(n, lambda t: isinstance(t, ast.Compare) and len(t.ops) == 1 and isinstance(t.ops[0], (ast.In, ast.NotIn))
+                                           and const(t.left) == key and dotted(t.comparators[0]) == m):
+                    if (lab == 'T') == isinstance(t.ast.ops[0], ast.In):
+                        guarded = True
+            if not guarded:
+                out.append((a, '%s raises KeyError when %r is absent' % (src(a), key)))
+        elif isinstance(a, ast.Call) and isinstance(a.func, ast.Attribute) and isinstance(const(a.func.value), (str, bytes)) \
+                and a.func.attr in STR_METHOD_ARITY and not any(isinstance(x, ast.Starred) for x in a.args) and not a.keywords:
+            lo, hi = STR_METHOD_ARITY[a.func.attr]
+            if not (lo <= len(a.args) <= hi):
+                out.append((a, '%s always raises TypeError (%s takes %d..%d arguments)' % (src(a)[:60], a.func.attr, lo, hi)))
+        elif isinstance(a, ast.Assign) and isinstance(a.targets[0], (ast.Tuple, ast.List)) and isinstance(a.value, ast.Call) \
+                and callee_attr(a.value) in ('split', 'rsplit') and not _caught(unit, a, ('ValueError', 'Exception', 'BaseException')):
+            out.append((a, '%s raises ValueError when the separator is absent' % src(a)[:60]))
+    return out
